@@ -6,6 +6,7 @@ import (
 	"fmt"
 	"go/types"
 	"math"
+	"math/bits"
 	"path/filepath"
 	"strconv"
 	"strings"
@@ -88,7 +89,7 @@ func init() {
 		"errors.New":   extErrorsNew,
 		"errors.Is":     extErrorsIs,
 		"errors.Unwrap": extErrorsUnwrap,
-		"sort.SliceStable": extSortSlice,
+		"sort.SliceStable": extSortSliceStable,
 		"sort.Slice":   extSortSlice,
 		"sort.Strings": ext۰sort۰Strings,
 		"sort.Ints":    ext۰sort۰Ints,
@@ -534,25 +535,27 @@ func extErrorsNew(fr *frame, args []value) value {
 	return mkError(fr, args[0].(string))
 }
 
-// sort.Slice: insertion sort calling the real less closure (for n <= 12 Go's
-// pdqsort is insertion sort, so even the order of ties is the real one).
-func extSortSlice(fr *frame, args []value) value {
+// sort.Slice / sort.SliceStable: the standard library's own pdqsort_func / stable_func (copied verbatim into
+// pdqsort.go) driven by the real less closure, so that the order of ties — and the instability of sort.Slice beyond
+// 12 elements — is the real one.
+func extSortSlice(fr *frame, args []value) value { return sortSliceWith(fr, args, false) }
+func extSortSliceStable(fr *frame, args []value) value { return sortSliceWith(fr, args, true) }
+
+func sortSliceWith(fr *frame, args []value, stable bool) value {
 	x := args[0].(iface).v.([]value)
 	less := args[1]
 	n := len(x)
-	// beyond 12 elements pdqsort is no longer insertion sort: the result is still *a* correctly sorted
-	// order (a stable one), only the order of ties may differ from the native run — harness oracles
-	// compare tie-tolerantly (vSameResults); beyond 64 the harness left the sizes this model was meant for
-	if n > 64 {
-		panic(engineError{"sort.Slice on more than 64 elements is outside the insertion-sort model"})
+	if n > 256 {
+		panic(engineError{"sort.Slice on more than 256 elements is outside the sizes the harnesses were written for"})
 	}
-	for i := 1; i < n; i++ {
-		for j := i; j > 0; j-- {
-			if !asBool(call(fr.i, fr, 0, less, []value{j, j - 1})) {
-				break
-			}
-			x[j], x[j-1] = x[j-1], x[j]
-		}
+	data := lessSwap{
+		Less: func(i, j int) bool { return asBool(call(fr.i, fr, 0, less, []value{i, j})) },
+		Swap: func(i, j int) { x[i], x[j] = x[j], x[i] },
+	}
+	if stable {
+		stable_func(data, n)
+	} else {
+		pdqsort_func(data, 0, n, bits.Len(uint(n)))
 	}
 	return nil
 }
